@@ -300,6 +300,16 @@ void RouterSession::afterTransaction(const char *when, bool processed) {
     std::vector<double> out;
     for (auto &kv : conns) if (kv.second.alive) for (auto &p : kv.second.ref->displayRoute().ps) { out.push_back(p.x); out.push_back(p.y); }
     record(out, true);
+    if (spec["cfg"].has("twin")) {
+        std::map<int, std::vector<Pt>> rr; std::map<int, double> cc;
+        for (auto &kv : conns) if (kv.second.alive) {
+            rr[kv.first] = routePts(kv.second.ref->displayRoute());
+            std::vector<Pt> sr = simplifyRoute(rr[kv.first]);
+            double p = params.count(Avoid::segmentPenalty) ? params[Avoid::segmentPenalty] : 10;
+            cc[kv.first] = ortho ? routeCost(kv.second.ref) : polyLen(sr) + p * std::max(0, (int)sr.size() - 2);
+        }
+        txnRoutes.push_back(rr); txnCosts.push_back(cc);
+    }
     if (dirty) { probe("router.oracles-skipped-after-cancel"); return; }
     if (processed) probe(ortho ? "router.transaction-ortho" : "router.transaction-poly");
     if (armed("C03") || armed("C05") || armed("C06")) checkValidity(when);
